@@ -48,6 +48,71 @@ impl DerefMut for FVal {
     }
 }
 
+/// A signed float-valued state observed through `ValueOf<SVal>` (Target = f64): negative, zero
+/// (either sign) and fractional values.
+#[derive(Tid)]
+pub struct SVal(pub f64);
+impl CustomState<'_> for SVal {}
+impl Deref for SVal {
+    type Target = f64;
+    fn deref(&self) -> &f64 {
+        &self.0
+    }
+}
+impl DerefMut for SVal {
+    fn deref_mut(&mut self) -> &mut f64 {
+        &mut self.0
+    }
+}
+
+/// A signed integer state observed through `ValueOf<IVal>` (Target = i32).
+#[derive(Tid)]
+pub struct IVal(pub i32);
+impl CustomState<'_> for IVal {}
+impl Deref for IVal {
+    type Target = i32;
+    fn deref(&self) -> &i32 {
+        &self.0
+    }
+}
+impl DerefMut for IVal {
+    fn deref_mut(&mut self) -> &mut i32 {
+        &mut self.0
+    }
+}
+
+/// Loop body that records the value of a signed state (as the code `off + value / unit`) and then
+/// raises it by `step` units.  `unit` = 0.5 for `SVal`, 1 for `IVal`.
+#[derive(Clone, Serialize)]
+pub struct Raise {
+    pub float: bool,
+    pub step: i64,
+    pub off: i64,
+    pub cap: i64,
+}
+
+impl Component<CondProblem> for Raise {
+    fn execute(&self, _problem: &CondProblem, state: &mut State<CondProblem>) -> ExecResult<()> {
+        let seen = if self.float {
+            let mut v = state.try_borrow_value_mut::<SVal>()?;
+            let k = *v * 2.0;
+            *v += self.step as f64 * 0.5;
+            if k.fract() == 0.0 && k.abs() < 1e9 { self.off + k as i64 } else { -7 }
+        } else {
+            let mut v = state.try_borrow_value_mut::<IVal>()?;
+            let k = *v as i64;
+            *v += self.step as i32;
+            self.off + k
+        };
+        let mut log = state.borrow_mut::<LoopLog>();
+        log.seen.push(seen);
+        if log.seen.len() as i64 > self.cap {
+            return Err(eyre::eyre!("runaway"));
+        }
+        Ok(())
+    }
+}
+
 /// Ids of the scripted operands evaluated, in the order of evaluation.
 #[derive(Tid, Default)]
 pub struct EvalLog(pub Vec<i64>);
